@@ -39,6 +39,10 @@ type Case struct {
 	Dev    string `json:"dev"`
 	MTU    int    `json:"mtu,omitempty"`
 	CID    int    `json:"cid,omitempty"`
+	// PSK family: cipher suite (0 = TLS_PSK_WITH_AES_128_GCM_SHA256) and the shape of the wrong key
+	// (0 other content and length, 1 same length other content, 2 proper prefix, 3 one bit flipped)
+	PSKSuite uint16 `json:"psksuite,omitempty"`
+	WrongPSK int    `json:"wrongpsk,omitempty"`
 }
 
 // deviations of a rogue CLIENT (honest server) and whether they mean "lacks the credential" under a policy
@@ -96,8 +100,12 @@ func epsFor(c *Case) (cl, sv scen.EP) {
 	cl = scen.EP{RootCA: 1, ServerName: scen.ServerName}
 	sv = scen.EP{Cert: c.Family}
 	if c.Family == "psk" {
-		cl = scen.EP{PSK: psk, PSKHint: "id", Suites: []uint16{0x00a8}}
-		sv = scen.EP{PSK: psk, PSKHint: "hint", Suites: []uint16{0x00a8}}
+		su := c.PSKSuite
+		if su == 0 {
+			su = 0x00a8
+		}
+		cl = scen.EP{PSK: psk, PSKHint: "id", Suites: []uint16{su}}
+		sv = scen.EP{PSK: psk, PSKHint: "hint", Suites: []uint16{su}}
 	}
 	if c.Ver == 13 {
 		cl.MinVer, cl.MaxVer, sv.MinVer, sv.MaxVer = 13, 13, 13, 13
@@ -109,10 +117,19 @@ func epsFor(c *Case) (cl, sv scen.EP) {
 	}
 	if c.Family == "psk" {
 		if c.Dev == "wrong-psk" {
+			wrong := "some-other-psk-key"
+			switch c.WrongPSK {
+			case 1:
+				wrong = "AUTH-PSK-KEY-99999" // same length as the right key
+			case 2:
+				wrong = psk[:len(psk)-1]
+			case 3:
+				wrong = psk[:5] + string(rune(psk[5]^1)) + psk[6:]
+			}
 			if c.Rogue == "C" {
-				cl.PSK = "some-other-psk-key"
+				cl.PSK = wrong
 			} else {
-				sv.PSK = "some-other-psk-key"
+				sv.PSK = wrong
 			}
 		}
 
@@ -452,6 +469,8 @@ func gen(t *rapid.T) Case {
 	}
 	if c.Family == "psk" {
 		c.Dev = rapid.SampledFrom([]string{"none", "wrong-psk"}).Draw(t, "pskdev")
+		c.PSKSuite = rapid.SampledFrom([]uint16{0x00a8, 0xccab, 0xc0a8, 0xc037, 0x00ae}).Draw(t, "psksuite")
+		c.WrongPSK = rapid.IntRange(0, 3).Draw(t, "wrongpsk")
 	}
 	if rapid.IntRange(0, 2).Draw(t, "mtu") == 0 {
 		c.MTU = rapid.IntRange(150, 800).Draw(t, "mtuv")
@@ -487,8 +506,12 @@ func enumGrid(_ string, yield func(Case) bool) {
 		}
 	}
 	for _, rogue := range []string{"C", "S"} {
-		if !yield(Case{Ver: 12, Rogue: rogue, Family: "psk", Dev: "wrong-psk"}) {
-			return
+		for _, su := range []uint16{0x00a8, 0xccab, 0xc0a8, 0xc037, 0x00ae} {
+			for w := 0; w <= 3; w++ {
+				if !yield(Case{Ver: 12, Rogue: rogue, Family: "psk", Dev: "wrong-psk", PSKSuite: su, WrongPSK: w}) {
+					return
+				}
+			}
 		}
 	}
 }
